@@ -132,6 +132,7 @@ class Pair(RawPair):
         self.max_data = 70000
         self.cl = {}               # (side, sid) -> bytes of the declared content-length still to be sent
         self.head = set()          # client-opened streams whose request method is HEAD
+        self.padded = {'c': set(), 's': set()}    # streams on which that side has sent DATA with padding
         self.norm_in = {'c': True, 's': True}    # normalize_inbound_headers of that side (cookie joining)
 
     # ------------------------------------------------------------------
@@ -707,6 +708,13 @@ def gen_call(ch, p, side, allow_close, allow_bad):
         n = min(p.max_data, ch.weighted([(8, ch.int(0, 40)), (2, 16384), (1, 16385), (2, ch.int(1000, 70000)), (1, 65535),
                                          (4, -1), (1, -2)]))
         pad = ch.pick([None, None, None, 0, 1, 7, 255])
+        again = sorted(s for s in p.padded[side] if m.get(s) is not None and m.get(s).can_send() and
+                       m.get(s).s_final and not m.get(s).s_trailers)
+        if again and ch.chance(72):
+            # a stream that has carried padded DATA before is filled to the brim: whatever the sender forgot to
+            # charge for that padding now shows
+            sid, n = ch.pick(again), -1
+            p.stats['fill-after-padded-data'] += 1
         if n < 0:
             # fill the window exactly as the sender sees it (-2: one byte more, which must raise): if the
             # sender's view is too generous the receiver will refuse the frame
@@ -732,6 +740,8 @@ def gen_call(ch, p, side, allow_close, allow_bad):
         def ok(o, base):
             if rem is not None:
                 p.cl[(side, sid)] = rem - n
+            if pad:
+                p.padded[side].add(sid)
             if es:
                 m.get(sid).send_end()
             evs = [('DataReceived', sid, body, n + (0 if pad is None else pad + 1), es)]
